@@ -16,7 +16,7 @@ import shutil
 import signal
 import tempfile
 
-from .runner import HarnessError
+from .runner import HarnessError, SubjectFailure
 
 FAKE_PID_BASE = 5_000_000  # above pid_max (4194304)
 
@@ -46,7 +46,7 @@ def settle(loop, limit=20000):
         if any(h._when <= loop.time() for h in _live_timers(loop)):
             continue
         return
-    raise HarnessError("virtual loop does not become quiescent")
+    raise SubjectFailure("worker pool event loop does not become quiescent")
 
 
 class FakeProc:
@@ -340,7 +340,7 @@ class World:
         t = self.loop.create_task(coro)
         settle(self.loop)
         if not t.done():
-            raise HarnessError("coroutine did not finish at a quiescent point")
+            raise SubjectFailure("scheduler coroutine did not finish at a quiescent point")
         return t.result()
 
     def submit(self, dep_idxs, time_limit, startfail, out=b"", err=b"", term_immune=False):
@@ -544,7 +544,7 @@ class World:
             self.step_no += 1
             self.check_point(seen_final)
         else:
-            raise HarnessError("drain did not terminate")
+            raise SubjectFailure("worker pool drain did not terminate")
 
     def final_checks(self):
         for tm in self.tasks:
